@@ -625,7 +625,29 @@ def r10_block_errors_end_the_operation(cx):
         raise AnchorLost("block parses in the reader: %d" % n)
 
 
+def r11_the_reader_starts_no_thread_of_its_own(cx):
+    """'never crash': the only concurrency the reader creates is the background decoder of a compressed cluster, whose
+    failure modes are accounted for (R1/R2). Opening and checking packs run in the calling thread: a failure there is a
+    `Result`. A worker thread started by reader code brings its own ways to die (a `send` on a channel whose receiver
+    left at the first bad verdict, a `join`), and a panic in it is re-raised in the caller."""
+    F = cx.F
+    sites = []
+    n = 0
+    for f in F.live_fns:
+        if "blocks" not in f or not re.search(r"^<?reader::| as reader::", f["name"]):
+            continue
+        n += 1
+        for blk in f["blocks"]:
+            t = blk["t"]
+            if not blk.get("cleanup") and call_is(t, r"^std::thread::(scope|spawn)(::<.*>)?$", r"thread::Builder::spawn", r"thread::Scope::<.*>::spawn", r"^rayon::(spawn|scope|join)", r"rayon_core::"):
+                sites.append((f, t.get("ln"), callee_str(t).split("::<")[0]))
+    for f, ln, what in sites:
+        cx.ob("R11", "R11/%s/starts-a-thread" % re.sub(r"<.*?>", "", f["name"]).split("::")[-1], False, f, "reader code starts a thread (%s) at line %s" % (what, ln), ln=ln)
+    cx.ob("R11", "R11/reader-runs-in-the-calling-thread", not sites and n > 100, "(reader)", "%d reader functions, none starts a thread" % n)
+
+
 RULES = [
+    ("R11", r11_the_reader_starts_no_thread_of_its_own, 1),
     ("R10", r10_block_errors_end_the_operation, 15),
     ("R9", r9_checked_cuts_verify_on_every_path, 1),
     ("R8", r8_no_recursion_on_file_contents, 1),
